@@ -178,7 +178,7 @@ class CalWorld:
     def op(self, text):
         self.sim.log('op', text)  # the op log is part of the event-log digest
         if len(self.ops) < 400:
-            self.ops.append(f'[{self.sim.steps}] {text}')
+            self.ops.append(f'[{self.sim.steps}] {text[:600]}')
 
     # -- the clock ----------------------------------------------------------
     def now(self):
@@ -427,7 +427,8 @@ class CalWorld:
                     with open(os.path.join(dp, f), 'rt', encoding='utf-8') as fh:
                         disk.extend(json.load(fh))
                 except Exception as e:  # noqa
-                    self.violate('C18', 'journal_unreadable', type(e).__name__, f'{when}: {os.path.join(dp, f)}: {e!r}')
+                    # (path relative to the journal root: the run directory carries the pid, which must not reach the digest)
+                    self.violate('C18', 'journal_unreadable', type(e).__name__, f'{when}: {os.path.relpath(os.path.join(dp, f), root)}: {e!r}')
                     return
         got = collections.Counter()
         for e in disk:
